@@ -44,24 +44,27 @@ def Kernel.twoPass : Kernel → Bool
 def Kernel.name : Kernel → String
   | .ssb => "ssb" | .obf => "obf" | .mf => "mf" | .prlx => "prlx" | .icom => "icom"
 
-/-- the `aliases` dict, in source order -/
-def aliasTable : List (String × Kernel) :=
-  [ ("ssb", .ssb), ("single-sideband", .ssb), ("acbf", .ssb),
-    ("aberration-corrected-bright-field", .ssb),
-    ("obf", .obf), ("optimum-bright-field", .obf),
-    ("mf", .mf), ("matched-filter", .mf),
-    ("prlx", .prlx), ("parallax", .prlx), ("tcbf", .prlx),
-    ("tilt-corrected-bright-field", .prlx),
-    ("icom", .icom), ("center-of-mass", .icom) ]
+/-- the `aliases` dict, in source order (names as character lists so that the table is decidable) -/
+def aliasTable : List (List Char × Kernel) :=
+  [ ("ssb".toList, .ssb), ("single-sideband".toList, .ssb), ("acbf".toList, .ssb),
+    ("aberration-corrected-bright-field".toList, .ssb),
+    ("obf".toList, .obf), ("optimum-bright-field".toList, .obf),
+    ("mf".toList, .mf), ("matched-filter".toList, .mf),
+    ("prlx".toList, .prlx), ("parallax".toList, .prlx), ("tcbf".toList, .prlx),
+    ("tilt-corrected-bright-field".toList, .prlx),
+    ("icom".toList, .icom), ("center-of-mass".toList, .icom) ]
 
 inductive Err where
   | valueError   -- unknown kernel name
   | indexError   -- boolean-mask index of a different shape
   deriving DecidableEq, Repr
 
+/-- `str.lower()` on the ASCII range (no alias contains a letter that some non-ASCII character lowers to) -/
+def lowerName (s : List Char) : List Char := s.map Char.toLower
+
 /-- `kernel = kernel.lower(); if kernel not in aliases: raise ValueError; return aliases[kernel]` -/
-def normalizeKernelName (s : String) : Except Err Kernel :=
-  match aliasTable.lookup s.toLower with
+def normalizeKernelName (s : List Char) : Except Err Kernel :=
+  match aliasTable.lookup (lowerName s) with
   | some k => .ok k
   | none => .error .valueError
 
@@ -256,10 +259,53 @@ def reconstruct (F : Fourier R) (k : Kernel) (pb : Problem R) (batches : List (L
 def correctedBf (npx : Nat) (stack : List (Option (Img R))) : Img R :=
   stack.foldl (fun acc o => match o with | some x => addI acc x | none => acc) (zeros npx)
 
-/-- `SimpleBatcher(num, batch_size, shuffle=False)`: `range(0, num, b)` slices -/
+/-- `np.fft.fftfreq(N)*N` -/
+def fftfreqInt (N k : Nat) : Int := if 2 * k < N + (N % 2) then (k : Int) else (k : Int) - N
+
+/-- `train_order[i : i + b] for i in range(0, len, b)`; `fuel` bounds the number of slices -/
+def chunksAux (b : Nat) : Nat → List Nat → List (List Nat)
+  | 0, _ => []
+  | fuel + 1, l => if l.isEmpty then [] else l.take b :: chunksAux b fuel (l.drop b)
+
+/-- `SimpleBatcher(num, batch_size, shuffle=False)`: the slices of `arange(num)` of width `b`
+(`range(0, num, 0)` raises; the model returns no batch) -/
 def chunkSchedule (n b : Nat) : List (List Nat) :=
-  if b = 0 then [] else
-  (List.range ((n + b - 1) / b)).map fun t => (List.range (min b (n - t * b))).map (· + t * b)
+  if b = 0 then [] else chunksAux b n (List.range n)
+
+/-! ## from the stack to the streamed problem -/
+
+/-- everything `reconstruct` derives from the mask and the hyper-parameters (no data) -/
+structure Geometry (R : Type) where
+  r : Nat                 -- scan rows
+  c : Nat                 -- scan columns
+  u : Nat                 -- upsampling factor
+  mapping : List Nat      -- `vbf_index_mapping` of the mask in use
+  K : Nat → Img (Cx R)    -- kernel factor of BF pixel i (what the kernel method returns on a unit spectrum)
+  P : Nat → Img R         -- |gamma_i|²
+  W : R
+  env : Img R
+  eps : R
+
+/-- the problem `reconstruct` streams for the virtual-BF stack `stack` -/
+def problemOfStack (F : Fourier R) (geo : Geometry R) (stack : List (Img R)) : Problem R :=
+  { rows := geo.u * geo.r, cols := geo.u * geo.c, n := geo.mapping.length,
+    G := numerator (preprocess F geo.r geo.c stack) geo.mapping geo.u geo.r geo.c geo.K,
+    P := geo.P, W := geo.W, env := geo.env, eps := geo.eps }
+
+/-- `reconstruct(bf_mask = sub)` relative to the problem of the construction mask: BF pixel `j` of the
+sub-mask is stack row `m[j]` (`_return_bf_context`), its factors are those of that detector pixel,
+and the weight is the sub-mask's own aperture weight -/
+def subProblem (pb : Problem R) (m : List Nat) (W : R) : Problem R :=
+  { pb with n := m.length, G := fun j => pb.G (m.getD j 0), P := fun j => pb.P (m.getD j 0), W := W }
+
+/-- `spatial_frequencies((N, M), (dx, dy))`, flattened: `fftfreq(N, dx)[:, None]`, `fftfreq(M, dy)[None, :]` -/
+def qGrid (N M : Nat) (dx dy : R) : Img R × Img R :=
+  ((List.range (N * M)).map fun p =>
+      Num.ofRat (((fftfreqInt N (p / M) : Int) : Rat) / ((N : Int) : Rat)) / dx,
+   (List.range (N * M)).map fun p =>
+      Num.ofRat (((fftfreqInt M (p % M) : Int) : Rat) / ((M : Int) : Rat)) / dy)
+
+def ones (n : Nat) : Img R := List.replicate n Num.one
 
 /-! ## modelled kernels: parallax and integrated centre of mass -/
 
@@ -275,9 +321,6 @@ def icomOperator (kx ky : R) (qx qy : Img R) : Img (Cx R) :=
     (⟨Num.zero, kx * (-(q.1) / q2) + ky * (-(q.2) / q2)⟩ : Cx R)
 
 /-! ## independent closed form of the parallax reconstruction (no flip) -/
-
-/-- `np.fft.fftfreq(N)*N` -/
-def fftfreqInt (N k : Nat) : Int := if 2 * k < N + (N % 2) then (k : Int) else (k : Int) - N
 
 structure PrlxGeom (R : Type) where
   wavelength : R
